@@ -348,7 +348,7 @@ fn gen(maxlen: usize) -> impl Fn(&mut EnumCtx) + Sync {
 
 pub fn run(tier: Tier) -> i32 {
     let mut run = Run::new("C18", tier.clone());
-    let maxlen = if tier.is_thorough() { 6 } else { 4 };
+    let maxlen = if tier.is_thorough() { 6 } else { 5 };
     let o = EnumOpts {
         sup: crate::sup::SupOpts {
             hang_secs: 20,
